@@ -60,20 +60,20 @@ package module
 // gCommitFailed: deliveries whose Commit returned an error (closed; a following Abort is tolerated, as emitDSN does).
 //@ ghost var gCommitFailed Set[ref]
 //@ extern func (Delivery).AddRcpt(d Delivery, ctx context.Context, rcptTo string, opts smtp.RcptOptions) error
-//@   requires[C01,C03,C09,C18] gOpen[refOf(d)]
+//@   requires[C01,C03,C18] gOpen[refOf(d)]
 //@   modifies gAcc
 //@   ensures result == nil ==> gAcc == store(old(gAcc), refOf(d), store(old(gAcc)[refOf(d)], rcptTo, true))
 //@   ensures result != nil ==> gAcc == old(gAcc)
 //@ extern func (Delivery).Body(d Delivery, ctx context.Context, header textproto.Header, body buffer.Buffer) error
-//@   requires[C01,C03,C09,C18] gOpen[refOf(d)]
+//@   requires[C01,C03,C18] gOpen[refOf(d)]
 //@   modifies gBodyErr
 //@   ensures gBodyErr == store(old(gBodyErr), refOf(d), result)
 //@ extern func (Delivery).Abort(d Delivery, ctx context.Context) error
-//@   requires[C01,C03,C09,C18] gOpen[refOf(d)] || gCommitFailed[refOf(d)]
+//@   requires[C01,C03,C18] gOpen[refOf(d)] || gCommitFailed[refOf(d)]
 //@   modifies gOpen, gCommitFailed
 //@   ensures gOpen == store(old(gOpen), refOf(d), false) && gCommitFailed == store(old(gCommitFailed), refOf(d), false)
 //@ extern func (Delivery).Commit(d Delivery, ctx context.Context) error
-//@   requires[C01,C03,C09,C18] gOpen[refOf(d)]
+//@   requires[C01,C03,C18] gOpen[refOf(d)]
 //@   modifies gOpen, gCommitted, gCommitFailed
 //@   ensures gOpen == store(old(gOpen), refOf(d), false)
 //@   ensures gCommitted == store(old(gCommitted), refOf(d), result == nil)
@@ -81,8 +81,15 @@ package module
 // BodyNonAtomic reports per-recipient failures through the collector; what a caller may assume about its own
 // collector is stated with the caller (contract "<caller>#BodyNonAtomic$call").
 //@ extern func (PartialDelivery).BodyNonAtomic(d PartialDelivery, ctx context.Context, c StatusCollector, header textproto.Header, body buffer.Buffer)
-//@   requires[C01,C03,C09,C18] gOpen[refOf(d)]
+//@   requires[C01,C03,C18] gOpen[refOf(d)]
+// C09: gStCnt[r] counts the SetStatus calls made so far (on any collector, through the interface) with key r.
+// Contracts of functions that report statuses speak about increments: "this call reported exactly these keys".
+//@ ghost var gStCnt Map[string,int]
 //@ extern func (StatusCollector).SetStatus(c StatusCollector, rcptTo string, err error)
+//@   modifies gStCnt
+//@   ensures gStCnt == store(old(gStCnt), rcptTo, old(gStCnt)[rcptTo] + 1)
+// occ(l, n, r): number of occurrences of r among the first n elements of l.
+//@ rec func occ(l []string, n int, r string) int = n <= 0 ? 0 : (occ(l, n-1, r) + (l[n-1] == r ? 1 : 0))
 //@ extern func (DeliveryTarget).Start(t DeliveryTarget, ctx context.Context, msgMeta *MsgMetadata, mailFrom string) (d Delivery, err error)
 //@   modifies gOpen, gAcc, gBodyErr, gCommitted
 //@   ensures err == nil ==> d != nil && !old(gOpen)[refOf(d)] && gOpen == store(old(gOpen), refOf(d), true)
